@@ -56,8 +56,17 @@ def check(case):
     else:
         lo = hi = size
     sizes_seen, vars_seen = set(), set()
-    for s in seeds:
-        o = lib(gens.intervention_targets, p, K, size, replace=replace, random_state=s)
+    for j, s in enumerate(seeds):
+        # the same request in the ways a caller may write it: numpy integers for p / K / size, keywords or positions
+        from props.gcommon import npint
+        pa, Ka = npint(p, j + 2), npint(K, j + 4)
+        sa = tuple(npint(v, j + 3 + n) for n, v in enumerate(size)) if isinstance(size, tuple) else npint(size, j)
+        if j % 7 == 3:
+            o = lib(gens.intervention_targets, p=pa, K=Ka, size=sa, replace=replace, random_state=s)
+        elif j % 7 == 5:
+            o = lib(gens.intervention_targets, pa, Ka, sa, replace, s)
+        else:
+            o = lib(gens.intervention_targets, pa, Ka, sa, replace=replace, random_state=s)
         if err:
             must_raise(o, ValueError, "%s [infeasible / malformed]" % ctx)
             continue
